@@ -635,6 +635,12 @@ def check_template(ctx):
             if tgt is not None:
                 removed.append((f2, tgt))
     look_def = tc.assigns.get("lookup")
+    # ... and is held strongly: a weak-value table drops an entry as soon as nobody else references the decorator (two hooks with one checker
+    # string: the second overwrites the entry, and when it is dropped the first hook's modules meet KeyError)
+    for v_ in (look_def or []):
+        if isinstance(v_, ast.Call) and norm(v_.func).split(".")[-1] in ("WeakValueDictionary", "WeakKeyDictionary", "WeakSet"):
+            ctx.bad("C10.6", (tc.file, tc.qualname), v_, f"`lookup = {short(v_, 40)}`: entries of Typechecker.lookup vanish when their last other reference goes: a module loaded by a hook that is "
+                    "still installed then raises KeyError where its decorator looks the typechecker up", construct="Typechecker.lookup holds its entries weakly")
     if removed:
         for f2, x in removed:
             ctx.bad("C10.6", f2, x, f"`{short(x, 60)}` removes entries from Typechecker.lookup: the decorators inserted into instrumented modules look their typechecker up there each "
